@@ -264,4 +264,34 @@ theorem loop_refines : ∀ (fuel : Nat) (cc : CC) (res : Bool) (tot cmdlen : Int
           rw [detectM_toM, hn] at this
           exact this
 
+/-! ### SCPI_Input -/
+
+theorem inv_toC (c : Ctx) (t ht : Int) (h : WF c) (hl : c.bufLen ≤ 2147483647) : Inv (toC c t ht) :=
+  ⟨rfl, rfl, Int.natCast_nonneg _, Int.natCast_nonneg _, by show (c.bufLen : Int) ≤ _; omega, by rw [toM_toC]; exact h⟩
+
+/-- overrun: nothing is copied, the buffer is invalidated, -363 is pushed, FALSE is returned -/
+theorem input_overrun_refines (cc : CC) (hi : Inv cc) (data : Bytes) (hd : data ≠ [])
+    (hov : data.length + 1 > (toM cc).bufLen - (toM cc).position) :
+    Ctx.input (toM cc) data = emit (toM (SCPI_Input detectM parseM pushM cc (some data) data.length).1)
+        (.input (SCPI_Input detectM parseM pushM cc (some data) data.length).2) ∧
+    (SCPI_Input detectM parseM pushM cc (some data) data.length).1.ub = false ∧
+    (SCPI_Input detectM parseM pushM cc (some data) data.length).1.outOfFuel = false ∧
+    (SCPI_Input detectM parseM pushM cc (some data) data.length).2 = false := by
+  obtain ⟨w1, w2, w3⟩ := hi.wf
+  simp only [toM_buf, toM_position, toM_bufLen] at w1 w2 hov
+  have hpos := hi.pos0
+  have hlm := hi.lenmax
+  have hl0 := hi.len0
+  have hd1 : data.length ≠ 0 := by intro h; exact hd (List.length_eq_zero_iff.mp h)
+  have hd' : ((data.length : Int) == 0) = false := by simp [hd1]
+  have hd'' : (data.length == 0) = false := by simp [hd1]
+  have e1 : wrapS32 (wrapU64 (cc.buffer_length - cc.buffer_position)) = cc.buffer_length - cc.buffer_position := by
+    rw [wrapU64_of_range _ (by omega) (by omega), wrapS32_of_range _ (by omega) (by omega)]
+  have hov' : (data.length : Int) > cc.buffer_length - cc.buffer_position - 1 := by omega
+  simp only [SCPI_Input, Ctx.input, hd', hd'', Bool.false_eq_true, if_false, toM_bufLen, toM_position, hov, if_true]
+  simp only [e1, chk_data, chk_pos, chk_len, chk_term, chk_type, chk_rest, chk_oof, chk_ub, chk_toM, hov', decide_true, if_true, pushM_toM, pushM_ub, pushM_oof, Int.toNat_zero]
+  refine ⟨by rfl, ?_, hi.oof, trivial⟩
+  simp only [hi.ub, Bool.false_or, Bool.or_eq_false_iff, Bool.not_eq_false', decide_eq_true_eq]
+  constructor <;> omega
+
 end ScpiVerif.Lemmas.InputC
